@@ -321,11 +321,11 @@ class Union:
         self.__args__ = self.types = types
 
     def codegen(self):
-        from .dependent import combine, generate_checking_code
+        from .dependent import combine, generate_guarded_checking_code
 
         template = "(" + " or ".join("{}" for t in self.types) + ")"
         return combine(
-            template, [generate_checking_code(t) for t in self.types]
+            template, [generate_guarded_checking_code(t) for t in self.types]
         )
 
     def __type_order__(self, other):
@@ -372,11 +372,11 @@ class Intersection:
         self.__args__ = self.types = types
 
     def codegen(self):
-        from .dependent import combine, generate_checking_code
+        from .dependent import combine, generate_guarded_checking_code
 
         template = "(" + " and ".join("{}" for t in self.types) + ")"
         return combine(
-            template, [generate_checking_code(t) for t in self.types]
+            template, [generate_guarded_checking_code(t) for t in self.types]
         )
 
     def __type_order__(self, other):
